@@ -233,6 +233,9 @@ def _grid(tier):
 
 
 MUTANTS = [
+    dict(name="saver advances the chunk counter once per receive()", file="strax/storage/common.py",
+         old="                for chunk in chunks:\n                    new_f = self.save(chunk=chunk, chunk_i=chunk_i, executor=executor)",
+         new="                chunk_i += 0 if chunks else 1\n                for chunk in chunks:\n                    new_f = self.save(chunk=chunk, chunk_i=chunk_i, executor=executor)"),
     dict(name="last_time taken from the first row", file="strax/storage/common.py",
          old='for desc, i in (("first", 0), ("last", -1)):', new='for desc, i in (("first", 0), ("last", 0)):'),
     dict(name="metadata end taken from first chunk", file="strax/storage/common.py",
